@@ -152,6 +152,16 @@ let run_api () =
          | None -> Printf.printf "node err=%d\n" not_open
          | Some (mf, _) -> Hashtbl.replace mf.nodes name { nty = dtype_of_string ty; nn = int_of_string n; ndata = None };
                            print_string "node err=-1\n")
+    | ["redim"; name; ty; n] ->
+        (* the node keeps its name; its contents are unspecified until the next full write (the generator always
+           follows a redim by a wall) *)
+        (match !cur with
+         | None -> Printf.printf "node err=%d\n" not_open
+         | Some (mf, _) ->
+             if Hashtbl.mem mf.nodes name then begin
+               Hashtbl.replace mf.nodes name { nty = dtype_of_string ty; nn = int_of_string n; ndata = None };
+               print_string "node err=-1\n" end
+             else print_string "node err=29\n")
     | ["wall"; name; hex] -> write_all name (bytes_of_hex_fast hex)
     | ["cgwrite"; name; ty; n; hex] ->
         (match !cur with
